@@ -912,6 +912,9 @@ class Interpreter(Interp):
     def getslice(self, obj, lo, hi, st):
         if isinstance(obj, (list, tuple, str, bytes)) and all(x is None or isinstance(x, int) for x in (lo, hi, st)):
             return obj[lo:hi:st]
+        if isinstance(obj, PartsList) and all(x is None or isinstance(x, int) for x in (lo, hi, st)):
+            # parts[a:b] of name.split('.'): fork on the arity (<= 5 parts), then an ordinary list slice
+            return obj.as_list(self)[lo:hi:st]
         raise OutOfReach("slice of symbolic value")
 
     def setitem(self, obj, idx, value):
